@@ -304,6 +304,56 @@ Lemma keyword_glue_refuted :
              po_sels := [PField None [97] [] [] []] |}].
 Proof. vm_compute. repeat split. Qed.
 
+(* ------------------------------------------ service documents ---------- *)
+Definition s_dir_plain : str :=                                   (* directive @d on FIELD *)
+  [100;105;114;101;99;116;105;118;101;32;64;100;32;111;110;32;70;73;69;76;68].
+Lemma repeatable_refuted :
+  parse_schema 400 s_dir_plain = Ok [SDirective None [100] [] true [[70;73;69;76;68]]] /\
+  spec_schema 400 s_dir_plain = Ok [SDirective None [100] [] false [[70;73;69;76;68]]] /\
+  known_class_sdl s_dir_plain = 6.
+Proof. vm_compute. repeat split. Qed.
+
+(* VariableDefinition: the specification has DefaultValue before Directives, the grammar the reverse *)
+Definition s_tail_spec : str := [61; 49; 32; 64; 100].            (* =1 @d *)
+Definition s_tail_rev : str := [64; 100; 32; 61; 49].             (* @d =1 *)
+Lemma vardef_order_refuted :
+  (exists d, spec_expect 6 s_tail_spec = Some (Ok d)) /\
+  parse_query 400 (doc_text 6 s_tail_spec) = Err E_SYNTAX /\
+  spec_expect 6 s_tail_rev = Some (Err E_SYNTAX) /\
+  (exists d, parse_query 400 (doc_text 6 s_tail_rev) = Ok d) /\
+  known_class 6 s_tail_spec = 7 /\ known_class 6 s_tail_rev = 7.
+Proof. vm_compute. repeat split; eexists; reflexivity. Qed.
+
+(* enum E{truex}: five tokens for the lexer, a syntax error for the grammar *)
+Definition s_enum_truex : str := [101;110;117;109;32;69;123;116;114;117;101;120;125].
+Definition s_enum_xtrue : str := [101;110;117;109;32;69;123;120;116;114;117;101;125].
+Lemma enum_value_prefix_refuted :
+  spec_lex 20 s_enum_truex =
+    Some [TName [101;110;117;109]; TName [69]; TPunct 123; TName [116;114;117;101;120]; TPunct 125] /\
+  parse_schema 400 s_enum_truex = Err E_SYNTAX /\
+  parse_schema 400 s_enum_xtrue =
+    Ok [SType false None [69] [] (KEnum [{| ev_desc := None; ev_name := [120;116;114;117;101]; ev_dirs := [] |}])].
+Proof. vm_compute. repeat split. Qed.
+
+(* non-vacuity: on a definition using every optional slot of an input value the
+   builder model and the by-rule-name specification give the same, full tree *)
+Definition s_kitchen : str :=      (* type Q{f("d" a:[T!]! = "x" @p @q(x:1)):Int @c} *)
+  [116;121;112;101;32;81;123;102;40;34;100;34;32;97;58;91;84;33;93;33;32;61;32;34;120;34;32;64;112;32;64;113;40;120;58;49;41;41;58;73;110;116;32;64;99;125].
+Lemma sdl_kitchen_sink :
+  parse_schema 400 s_kitchen = spec_schema 400 s_kitchen /\
+  parse_schema 400 s_kitchen =
+  Ok [SType false None [81] []
+        (KObject []
+           [{| fd_desc := None; fd_name := [102];
+               fd_args := [{| iv_desc := Some [100]; iv_name := [97];
+                              iv_ty := TList (TNamed [84] false) false;
+                              iv_default := Some (PVStr [120]);
+                              iv_dirs := [{| pd_name := [112]; pd_args := [] |};
+                                          {| pd_name := [113]; pd_args := [([120], PVInt 1)] |}] |}];
+               fd_ty := TNamed [73;110;116] true;
+               fd_dirs := [{| pd_name := [99]; pd_args := [] |}] |}])].
+Proof. vm_compute. split; reflexivity. Qed.
+
 (* ------------------------------- the grammar facts the lemmas rest on --- *)
 (* rules of the regenerated grammar pinned structurally: an edit of these
    rules in graphql.pest breaks the obligation *)
